@@ -170,7 +170,13 @@ def judge(ctx, ws, model, raw, q, how):
             ctx.nontrivial(("scc", len(comp), len(cn & multi) > 0, ws.spec["unique"]))
             continue
         # does the implementation's own graph contain a cycle among these names at all?
-        if (cn & (multi | inv)) and ctx.known(KF_NAME_GRAPH):
+        # the implementation's DFS works on the name-level graph: extra (invisible / shadowed) edges anywhere in the
+        # name-level component that contains this SCC change which cycles it finds and which it prunes as visited
+        comp_names = set(cn)
+        for c in tarjan(list(ng), ng):
+            if set(c) & cn:
+                comp_names |= set(c)
+        if (comp_names & (multi | inv)) and ctx.known(KF_NAME_GRAPH):
             ctx.count("kf_missed_cycle")
             continue
         ctx.violation({"kind": "dependency-cycle-not-reported", "names": sorted(cn), "how": how[0]},
